@@ -18,13 +18,13 @@ package coregex
 
 //@ func (*Regex).Match
 //@   props C11 C01 C07
-//@   requires regexOK(r)
+//@   requires regexOK(r) && len(b) <= 140737488355328
 //@   modifies @searchState
 //@   ensures result == refFound(r.engine, r.engine.longest, b, 0)
 
 //@ func (*Regex).MatchString
 //@   props C11 C01 C07
-//@   requires regexOK(r)
+//@   requires regexOK(r) && len(s) <= 140737488355328
 //@   modifies @searchState
 //@   ensures result == refFound(r.engine, r.engine.longest, stringBytes(s), 0)
 
